@@ -131,6 +131,79 @@ func cell(backend string, trust int, kind, rk, state string, v int, own uint64) 
 	return sc
 }
 
+// on2: the op is done by the second node
+func on2(o *op) *op { o.Node = 2; return o }
+
+// foreignCell: the first node has read the slot while it was empty (the observation taken through its cache
+// before the other node's write), then ANOTHER node on the shared storage fills it, then the first node
+// attempts its guarded write.  kind: plog | wlog | create; state: identical | different bytes.
+func foreignCell(backend string, trust int, kind, rk, state string, v int) *scenario {
+	po, wo, x := ofsPool[v%len(ofsPool)], ofsPool[(v+2)%len(ofsPool)], idPool[v%len(idPool)]
+	sc := &scenario{Cell: fmt.Sprintf("foreign/%s/%s/%s/t%d/%s", kind, rk, state, trust, backend), Backend: backend, Trust: trust}
+	add := func(ops ...*op) { sc.Ops = append(sc.Ops, ops...) }
+	if rk == "" {
+		rk = "Doc"
+	}
+	st := int64(502)
+	if state == "identical" {
+		st = 501
+	}
+	switch kind {
+	case "plog":
+		a := event(po, wo, 1001, recs(rk, x, 501, true), nil)
+		b := event(po, wo+1, 1002, []recSpec{cr(x+1, 502)}, nil)
+		if state == "identical" {
+			b = event(po, wo, 1001, recs(rk, x, 501, true), nil)
+		}
+		add(bld("A", a), on2(bld("B", b)), on2(do("plog", "B")), do("plog", "A"))
+	case "wlog":
+		if state == "identical" {
+			// the other node reads the event the first node stored in the PLog and puts the same bytes into the WLog
+			add(bld("A", event(po, wo, 1001, recs(rk, x, 501, true), nil)), do("plog", "A"),
+				on2(reread("A", "B")), on2(do("wlog", "B")), do("wlog", "A"))
+		} else {
+			add(bld("A", event(po, wo, 1001, recs(rk, x, 501, true), nil)), do("plog", "A"),
+				on2(bld("B", event(po+1, wo, 1002, []recSpec{cr(x+1, 502)}, nil))), on2(do("plog", "B")), on2(do("wlog", "B")), do("wlog", "A"))
+		}
+	case "create":
+		// the first node builds (and validates) its event before the other node creates the record
+		add(bld("A", event(po, wo, 1001, recs(rk, x, 501, kindOf(rk).Parent == ""), nil)),
+			on2(bld("B", event(po+1, wo+1, 1002, recs(rk, x, st, true), nil))), on2(do("plog", "B")), on2(do("apply", "B")),
+			do("plog", "A"), do("apply", "A"))
+	}
+	return sc
+}
+
+func foreignMatrix(r *kit.Rng) []*scenario {
+	var out []*scenario
+	for _, b := range backends {
+		for t := 0; t <= 2; t++ {
+			for _, s := range []string{"identical", "different"} {
+				out = append(out, foreignCell(b, t, "plog", "", s, r.Intn(30)), foreignCell(b, t, "wlog", "", s, r.Intn(30)))
+				for _, rk := range kindNames() {
+					out = append(out, foreignCell(b, t, "create", rk, s, r.Intn(30)))
+				}
+			}
+		}
+	}
+	return out
+}
+
+func foreignTags() []string {
+	var out []string
+	for _, b := range backends {
+		for t := 0; t <= 2; t++ {
+			for _, s := range []string{"identical", "different"} {
+				out = append(out, fmt.Sprintf("foreign:t%d:plog:%s:%s", t, s, b), fmt.Sprintf("foreign:t%d:wlog:%s:%s", t, s, b))
+				for _, rk := range kindNames() {
+					out = append(out, fmt.Sprintf("foreign:t%d:create:%s:%s:%s", t, rk, s, b))
+				}
+			}
+		}
+	}
+	return out
+}
+
 var recordOps = map[string]bool{"create": true, "update": true, "reapply": true}
 
 func kindNames() []string {
@@ -480,8 +553,13 @@ func Generate(seed uint64, n int, tier string, corpusDir string, shard int, out 
 				return err
 			}
 		}
+		for _, sc := range foreignMatrix(mr) {
+			if err := emit(sc, out, seen); err != nil {
+				return err
+			}
+		}
 		var missing []string
-		for _, t := range matrixTags() {
+		for _, t := range append(matrixTags(), foreignTags()...) {
 			if !seen[t] {
 				missing = append(missing, t)
 			}
